@@ -3,8 +3,9 @@ import PsModel.Lemmas.C07
 # C07 – property theorems (`@state_active`, `@time_active`, `hold_off` gate every trigger correctly)
 
 Only property statements live here; helpers are in `Lemmas/C07.lean`.  `Legacy.*` mirrors `trigger.py`, `New.*` the
-decorator subsystem; `Flags.current` is the new subsystem as it is today, `Flags.repaired` with the three deviations
-switched off (see `findings.d/C07.json`).
+decorator subsystem; `Flags.current` is the code as it is today (after the fixes e0254f9, 07af69d, 4801d95; the early
+hold-off stamp C07-F2 is left), `Flags.preFix` the code before those fixes (kept for the `_regress_` theorems),
+`Flags.repaired` with every deviation switched off (see `findings.d/C07.json`).
 -/
 namespace PsModel.C07
 
@@ -105,10 +106,10 @@ theorem C07_daily_window (P : Params) (h1 m1 u1 h2 m2 u2 : Int) (now startup : T
 
 /-! ## legacy subsystem -/
 
-/-- **Legacy gates correctly once `AstEval.eval` resets its table on an empty dictionary.**  For every configuration and
-every sequence of trigger occurrences and direct calls on a monotonic clock, the function runs for exactly the
-occurrences the specification accepts: trigger condition held, `@state_active` truthy on the triggering values, window
-admits the occurrence time, and no accepted occurrence less than `hold_off` before. -/
+/-- **Legacy gates correctly whenever `AstEval.eval` resets its table on an empty dictionary** (any flag value with
+`staleLocals = false`).  For every configuration and every sequence of trigger occurrences and direct calls on a monotonic
+clock, the function runs for exactly the occurrences the specification accepts: trigger condition held, `@state_active`
+truthy on the triggering values, window admits the occurrence time, and no accepted occurrence less than `hold_off` before. -/
 theorem C07_legacy_repaired (F : Flags) (hF : F.staleLocals = false) (P : Params) (cfg : Cfg) (es : List Ev)
     (hm : Mono es none) :
     Legacy.run F P cfg es GState.init = Spec.runs P cfg es [] := by
@@ -116,20 +117,15 @@ theorem C07_legacy_repaired (F : Flags) (hF : F.staleLocals = false) (P : Params
   exact runWith_spec P cfg (NoStale F) _ (Legacy.stepOK F P cfg) es GState.init [] none
     (allOcc_of_mem _ es (fun _ _ => by intro h; simp [hF] at h)) hm (inv_init cfg)
 
-/-- **Legacy as it is** gates correctly on every history in which no occurrence evaluates the `@state_active`
-expression with an empty variable dictionary while an earlier dictionary would give a different value
-(finding C07-F4). -/
-theorem C07_legacy_partial (P : Params) (cfg : Cfg) (es : List Ev) (hm : Mono es none)
-    (hstale : ∀ o, Ev.occ o ∈ es → o.env = true ∨ ∀ k, (lookupStale k o.saStale).getD o.sa = o.sa) :
-    Legacy.run Flags.current P cfg es GState.init = Spec.runs P cfg es [] := by
-  rw [Legacy.run_eq]
-  exact runWith_spec P cfg (NoStale Flags.current) _ (Legacy.stepOK _ P cfg) es GState.init [] none
-    (allOcc_of_mem _ es (fun o ho _ => hstale o ho)) hm (inv_init cfg)
+/-- **The legacy subsystem as it is gates correctly** – full statement, no fragment (since fix 4801d95). -/
+theorem C07_legacy (P : Params) (cfg : Cfg) (es : List Ev) (hm : Mono es none) :
+    Legacy.run Flags.current P cfg es GState.init = Spec.runs P cfg es [] :=
+  C07_legacy_repaired Flags.current rfl P cfg es hm
 
 /-! ## new subsystem -/
 
-/-- **The repaired new subsystem gates correctly** – one `timer_active_check` call with the whole list, truthiness
-instead of `is False`, `last_trig_time` stamped only when every handler passed, table reset on an empty dictionary. -/
+/-- **The fully repaired new subsystem gates correctly** – additionally `last_trig_time` stamped only when every handler
+passed. -/
 theorem C07_new_repaired (P : Params) (cfg : Cfg) (es : List Ev) (hm : Mono es none) :
     New.run Flags.repaired P cfg es GState.init = Spec.runs P cfg es [] := by
   rw [New.run_eq]
@@ -140,26 +136,19 @@ theorem C07_new_repaired (P : Params) (cfg : Cfg) (es : List Ev) (hm : Mono es n
     exact ⟨by intro h; simp [Flags.repaired] at h, by intro h; simp [Flags.repaired] at h,
       by intro h; simp [Flags.repaired] at h⟩
 
-/-- **The new subsystem as it is** gates correctly on the fragment where its deviations cannot show:
-at most one `@time_active` argument or only positive arguments (with existing dates); a `@state_active` expression
-that never yields a falsy value other than `False`; `@state_active` listed above `@time_active`, or absent, or no
-positive `hold_off`; and no stale variable table (as for legacy). -/
+/-- **The new subsystem as it is** (after the fixes e0254f9, 07af69d, 4801d95) gates correctly for every specification
+list, every `@state_active` value and every history – on all configurations in which the one remaining deviation, the
+early hold-off stamp (C07-F2), cannot show: `@state_active` listed above `@time_active`, or absent, or no positive
+`hold_off`. -/
 theorem C07_new_partial (P : Params) (cfg : Cfg) (es : List Ev) (hm : Mono es none)
-    (hspecs : cfg.specs.length ≤ 1 ∨
-      ((∀ a ∈ cfg.specs, a.neg = false) ∧
-        ∀ o, Ev.occ o ∈ es → Spec.resolves P o.wall cfg.startup cfg.specs = true))
-    (hsa : cfg.stateActive = true → ∀ o, Ev.occ o ∈ es → o.sa ≠ .falsy)
-    (hord : cfg.saFirst = true ∨ cfg.stateActive = false ∨ Spec.holdN cfg = 0)
-    (hstale : ∀ o, Ev.occ o ∈ es → o.env = true ∨ ∀ k, (lookupStale k o.saStale).getD o.sa = o.sa) :
+    (hord : cfg.saFirst = true ∨ cfg.stateActive = false ∨ Spec.holdN cfg = 0) :
     New.run Flags.current P cfg es GState.init = Spec.runs P cfg es [] := by
   rw [New.run_eq]
   refine runWith_spec P cfg (New.Good Flags.current P cfg) _ (New.stepOK _ P cfg (fun _ => hord)) es GState.init [] none
     (allOcc_of_mem _ es ?_) hm (inv_init cfg)
-  intro o ho
-  refine ⟨fun _ => ?_, fun _ h => hsa h o ho, fun _ => hstale o ho⟩
-  rcases hspecs with h | ⟨h1, h2⟩
-  · exact Or.inl h
-  · exact Or.inr ⟨h1, h2 o ho⟩
+  intro o _
+  exact ⟨by intro h; simp [Flags.current] at h, by intro h; simp [Flags.current] at h,
+    by intro h; simp [Flags.current] at h⟩
 
 /-- 2024-06-03 12:00:00 (a Monday) -/
 def wNoon : Int := 1717416000000000
@@ -170,32 +159,35 @@ def wRange (h1 m1 h2 m2 : Int) (neg : Bool) : ASpec :=
 /-- an occurrence at 12:00 whose trigger condition held and whose variable dictionary is non-empty -/
 def wOcc (id t : Nat) (sa : AVal) : Ev := .occ ⟨id, t, wNoon, true, true, sa, []⟩
 
-/-- finding C07-F1: `@time_active("range(11:00,13:00)", "not range(11:30,12:30)")` at 12:00 – each argument is checked
-alone, the positive one matches, the function runs although the time is excluded. -/
-theorem C07_new_cex_mixed_sign :
+/-- regression for C07-F1 (fixed by e0254f9): `@time_active("range(11:00,13:00)", "not range(11:30,12:30)")` at 12:00 – the
+pre-fix code checked each argument alone and ran the function; the code as it is does not, like the spec and legacy. -/
+theorem C07_new_regress_mixed_sign :
     let cfg : Cfg := ⟨false, true, [wRange 11 0 13 0 false, wRange 11 30 12 30 true], none, false, wNoon⟩
-    New.run Flags.current Params.trivial cfg [wOcc 1 1000 .truthy] GState.init = [true] ∧
+    New.run Flags.preFix Params.trivial cfg [wOcc 1 1000 .truthy] GState.init = [true] ∧
+    New.run Flags.current Params.trivial cfg [wOcc 1 1000 .truthy] GState.init = [false] ∧
     Spec.runs Params.trivial cfg [wOcc 1 1000 .truthy] [] = [false] ∧
     Legacy.run Flags.current Params.trivial cfg [wOcc 1 1000 .truthy] GState.init = [false] := by
   decide
 
-/-- finding C07-F1, second shape: two negated windows, the time lies in the first – the second argument alone passes. -/
-theorem C07_new_cex_two_negatives :
+/-- regression for C07-F1, second shape: two negated windows, the time lies in the first. -/
+theorem C07_new_regress_two_negatives :
     let cfg : Cfg := ⟨false, true, [wRange 11 30 12 30 true, wRange 13 0 14 0 true], none, false, wNoon⟩
-    New.run Flags.current Params.trivial cfg [wOcc 1 1000 .truthy] GState.init = [true] ∧
+    New.run Flags.preFix Params.trivial cfg [wOcc 1 1000 .truthy] GState.init = [true] ∧
+    New.run Flags.current Params.trivial cfg [wOcc 1 1000 .truthy] GState.init = [false] ∧
     Spec.runs Params.trivial cfg [wOcc 1 1000 .truthy] [] = [false] := by
   decide
 
-/-- finding C07-F3: a `@state_active` expression evaluating to `0` / `None` / `""` does not stop the dispatch
-(`is False`), the function runs. -/
-theorem C07_new_cex_falsy_state_active :
+/-- regression for C07-F3 (fixed by 07af69d): a `@state_active` expression evaluating to `0` / `None` / `""` let the pre-fix
+dispatch go on (`is False`); now it stops it. -/
+theorem C07_new_regress_falsy_state_active :
     let cfg : Cfg := ⟨true, false, [], none, true, wNoon⟩
-    New.run Flags.current Params.trivial cfg [wOcc 1 1000 .falsy] GState.init = [true] ∧
+    New.run Flags.preFix Params.trivial cfg [wOcc 1 1000 .falsy] GState.init = [true] ∧
+    New.run Flags.current Params.trivial cfg [wOcc 1 1000 .falsy] GState.init = [false] ∧
     Spec.runs Params.trivial cfg [wOcc 1 1000 .falsy] [] = [false] ∧
     Legacy.run Flags.current Params.trivial cfg [wOcc 1 1000 .falsy] GState.init = [false] := by
   decide
 
-/-- finding C07-F2: `@time_active(hold_off=10)` above `@state_active`: an occurrence rejected by `@state_active` at 1 s
+/-- finding C07-F2 (open): `@time_active(hold_off=10)` above `@state_active`: an occurrence rejected by `@state_active` at 1 s
 stamps `last_trig_time`; the first acceptable occurrence at 6 s is suppressed although nothing was accepted before. -/
 theorem C07_new_cex_early_stamp :
     let cfg : Cfg := ⟨true, true, [], some 10000, false, wNoon⟩
@@ -205,15 +197,17 @@ theorem C07_new_cex_early_stamp :
     Legacy.run Flags.current Params.trivial cfg es GState.init = [false, true, false, true] := by
   decide
 
-/-- finding C07-F4 (both subsystems): `@state_active("pyscript.en != '1'")`.  First occurrence: the entity does not exist,
-the dictionary `{pyscript.en: None}` is loaded, the value is truthy, the function runs.  Second occurrence: the entity
-now exists with value `'1'` – the expression is `False` on the current values – but the dictionary is empty, the old
-table stays, the expression still sees `None`, and the function runs. -/
-theorem C07_cex_stale_locals :
+/-- regression for C07-F4 (fixed by 4801d95, both subsystems): `@state_active("pyscript.en != '1'")`.  First occurrence: the
+entity does not exist, the dictionary `{pyscript.en: None}` is loaded, the value is truthy, the function runs.  Second
+occurrence: the entity now exists with value `'1'`, the dictionary is empty – the pre-fix code kept the old table, still saw
+`None` and ran the function; now the table is reset and the function does not run. -/
+theorem C07_regress_stale_locals :
     let cfg : Cfg := ⟨true, false, [], none, true, wNoon⟩
     let es := [Ev.occ ⟨1, 500, wNoon, true, true, .truthy, []⟩, Ev.occ ⟨2, 1750, wNoon, true, false, .isFalse, [(1, .truthy)]⟩]
-    Legacy.run Flags.current Params.trivial cfg es GState.init = [true, true] ∧
-    New.run Flags.current Params.trivial cfg es GState.init = [true, true] ∧
+    Legacy.run Flags.preFix Params.trivial cfg es GState.init = [true, true] ∧
+    New.run Flags.preFix Params.trivial cfg es GState.init = [true, true] ∧
+    Legacy.run Flags.current Params.trivial cfg es GState.init = [true, false] ∧
+    New.run Flags.current Params.trivial cfg es GState.init = [true, false] ∧
     Spec.runs Params.trivial cfg es [] = [true, false] := by
   decide
 
@@ -256,10 +250,10 @@ example : Mono [wOcc 1 1000 .truthy, .direct, wOcc 2 6000 .isFalse, wOcc 3 6000 
 
 example : dayInRange (dayOf wNoon) := by unfold dayInRange; decide
 
-/-- the partial theorem's fragment is inhabited by a configuration using all three guards -/
+/-- the partial theorem's fragment is inhabited by a configuration using all three guards and mixed-sign windows -/
 example :
-    let cfg : Cfg := ⟨true, true, [wRange 11 0 13 0 false, wRange 9 0 10 0 false], some 10000, true, wNoon⟩
-    cfg.saFirst = true ∧ (∀ a ∈ cfg.specs, a.neg = false) ∧
+    let cfg : Cfg := ⟨true, true, [wRange 11 0 13 0 false, wRange 9 0 10 0 true], some 10000, true, wNoon⟩
+    (cfg.saFirst = true ∨ cfg.stateActive = false ∨ Spec.holdN cfg = 0) ∧
     New.run Flags.current Params.trivial cfg
         [wOcc 1 1000 .truthy, wOcc 2 2000 .truthy, wOcc 3 11000 .isFalse, wOcc 4 12000 .truthy] GState.init
       = [true, false, false, true] := by
